@@ -762,6 +762,49 @@ def check_mixins(pane, res):
         if got != want:
             core.add_violation(res, {'kind': 'options_through_plain_mixin', 'case': label},
                                f"{label}: options of the pane base are not in force in the subclass: got {got!r}, expected {want!r}", {'mixin': label}, 3)
+    # ONE field() object written into the bodies of several classes: each class reads it, none may leave its own type or
+    # keyword-only placement behind in it for the next class (in either order of class creation)
+    def _mk_kw(shared):
+        return type('ShKw', (pane.PaneBase,), {'__annotations__': {'x': int, '_': pane.KW_ONLY, 'k': int}, 'x': 0, 'k': shared, '__module__': 'mc.generated'},
+                    in_format=('tuple', 'struct'))
+
+    def _mk_plain(shared):
+        return type('ShPlain', (pane.PaneBase,), {'__annotations__': {'x': int, 'k': int}, 'x': 0, 'k': shared, '__module__': 'mc.generated'},
+                    in_format=('tuple', 'struct'))
+
+    def _mk_str(shared):
+        return type('ShStr', (pane.PaneBase,), {'__annotations__': {'s': str}, 's': shared, '__module__': 'mc.generated'})
+    makers = {'kw_only user': (_mk_kw, "(x: int = 0, *, k: int = 7) -> None"), 'plain user': (_mk_plain, "(x: int = 0, k: int = 7) -> None"),
+              'str user': (_mk_str, "(s: str = 7) -> None")}
+    for order in itertools.permutations(makers, 3):
+        shared = pane.field(default=7, aliases=('n',))
+        res['states'] += 1
+        res['evals'] += 1
+        res['validated'] += 1
+        res['nontrivial'].add(f"shared_field|{'>'.join(order)}")
+        problem = None
+        try:
+            built = {n: makers[n][0](shared) for n in order}
+            for n in order:
+                got = str(inspect.signature(built[n]))
+                if got != makers[n][1]:
+                    problem = f"{n}: signature {got}, expected {makers[n][1]}"
+                    break
+                sub_cls = type('ShSub', (built[n],), {'__annotations__': {'z': int}, 'z': 3, '__module__': 'mc.generated'})
+                want_sub = makers[n][1].replace(') -> None', ', z: int = 3) -> None') if n != 'kw_only user' else "(x: int = 0, z: int = 3, *, k: int = 7) -> None"
+                if str(inspect.signature(sub_cls)) != want_sub:
+                    problem = f"subclass of the {n}: signature {inspect.signature(sub_cls)}, expected {want_sub}"
+                    break
+            if problem is None:
+                p = built['plain user'].from_data([1, 2])
+                if (p.x, p.k) != (1, 2):
+                    problem = f"plain user: from_data([1, 2]) -> {p!r}"
+        except Exception as e:  # noqa
+            problem = problem or f"{type(e).__name__}: {core.sstr(e, 100)}"
+        if problem:
+            core.add_violation(res, {'kind': 'shared_field_object', 'first': order[0]},
+                               f"one field(default=7, aliases=('n',)) object used in three class bodies created in the order {list(order)}: {problem}",
+                               {'mixin': 'shared_field:' + '>'.join(order)}, 4)
     # frozen and a validating hook, both INHERITED: the option stays in force whatever constructions were rejected before
     def _fpost(self):
         if self.x == 13:
